@@ -19,9 +19,10 @@ CELLS = ["[C]", "[Ring1]", "[Branch1]", "[", "]", ".", "x", "", "[nop]", "[Cexpl
 
 
 def _snapshot(ctx):
+    """the global constraint state as the public getters show it"""
     bc = ctx.bc
-    return (id(bc._current_constraints), dict(bc._current_constraints),
-            {k: dict(v) for k, v in bc._PRESET_CONSTRAINTS.items()})
+    return (None, dict(bc.get_semantic_constraints()),
+            {k: dict(bc.get_preset_constraints(k)) for k in ("default", "octet_rule", "hypervalent")})
 
 
 def _judge(ctx, eng, col, r, snap, mk_input, flags):
